@@ -539,6 +539,15 @@ func (db *DB) ResetLocalState(ctx context.Context) error {
 
 	db.invalidatePosCache()
 
+	// Local TXIDs must not start over below what the replica already holds:
+	// re-establish the baseline from the replica, as init does for a database that
+	// is behind its replica.
+	if db.Replica != nil && db.Replica.Client != nil {
+		if err := db.checkDatabaseBehindReplica(ctx); err != nil {
+			return fmt.Errorf("check database behind replica: %w", err)
+		}
+	}
+
 	db.Logger.Info("local state reset complete, next sync will create fresh snapshot")
 	return nil
 }
